@@ -241,10 +241,12 @@ Section LookupX.
     else let f := normalize lower is_space (fallback_name cfg) in
          match sel s f with Some c => Some (c, false, f) | None => None end.
 
-  Definition from_cache_x (s : state) (cfg : config) (sni localip : str) : option (cert * bool * name) :=
+  (** [conn]: hello.Conn != nil (a ClientHelloInfo made by crypto/tls always has one; without it the
+      local IP is not tried and getNameFromClientHello's last resort is the empty string) *)
+  Definition from_cache_x (conn : bool) (s : state) (cfg : config) (sni localip : str) : option (cert * bool * name) :=
     let n := normalize lower is_space sni in
     if is_nil n then
-      match sel s localip with
+      match (if conn then sel s localip else None) with
       | Some c => Some (c, true, localip)
       | None =>
           match (if is_nil (default_name cfg) then None
@@ -272,8 +274,8 @@ Section LookupX.
 
   (** Config.GetCertificate -> getCertDuringHandshake (OnDemand == nil, no Managers): the answer
       and the cache afterwards *)
-  Definition lookup_x (s : state) (cap : nat) (cfg : config) (sni localip : str) (e : envx) : result * state :=
-    match from_cache_x s cfg sni localip with
+  Definition lookup_x (conn : bool) (s : state) (cap : nat) (cfg : config) (sni localip : str) (e : envx) : result * state :=
+    match from_cache_x conn s cfg sni localip with
     | Some (c, true, _) => (ROk c, s)
     | other =>
         match hello_name cfg localip (x_idna e) with
